@@ -221,6 +221,12 @@ def spend_cases(ctx, rnd, quick):
     add("spk-long-push", P.push(b"\x55" * 520) + b"\x75", b"\x51")
     add("sig-long-push", b"\x75\x51", P.push(b"\x66" * 516))
     add("p2sh-without-flag", p2sh(red), b"\x51\x52" + P.push(red), flags=0)
+    # the redeem script pushed with every push encoding (the longer ones are non-minimal: allowed with MINIMALDATA off)
+    NOMIN = R.STD & ~(1 << FB["MINIMALDATA"])
+    for enc_name, enc in (("pushdata1", bytes([0x4c, len(red)])), ("pushdata2", bytes([0x4d]) + len(red).to_bytes(2, "little")), ("pushdata4", bytes([0x4e]) + len(red).to_bytes(4, "little"))):
+        for fl in (NOMIN, R.STD):
+            add("p2sh-redeem-" + enc_name, p2sh(red), b"\x51\x52" + enc + red, flags=fl)
+    add("p2sh-redeem-long-pushdata4", p2sh(long_red), b"\x4e" + (len(P.push(b"\x77" * 515) + b"\x75\x51")).to_bytes(4, "little") + P.push(b"\x77" * 515) + b"\x75\x51", flags=NOMIN)
     ws = bytes.fromhex("935387")
     add("p2wsh", b"\x00\x20" + P.sha256(ws), b"", [b"\x01", b"\x02", ws])
     wl = P.push(b"\x88" * 515) + b"\x75\x51"
